@@ -197,6 +197,25 @@ def one(ctx, rng, length, shape, cyclic, nconfigs, extra, budget, calibrate=None
                 if r:
                     ctx.violation("chain-len-%d-%s-%s" % (length, shape, r[0]), "acyclic chain does not resolve to exactly the stored values", dict(wit, diff=r[1]))
                     continue
+    if cyclic:
+        # several queries on the SAME parser object: from every node of the cycle every concrete value is reachable, whatever was resolved before
+        rids = [((PID << 24) | (2 << 16) | 0) if (shape == "complex" and i == 0) else ((PID << 24) | (1 << 16) | i) for i in range(length)]
+        order = rids * 2
+        rng.shuffle(order)
+        for rid in order:
+            ctx.ev()
+            ctx.count("repeated_queries_same_parser")
+            status, res, steps = run_resolver(a, rid, budget)
+            if status != "ok":
+                ctx.violation("%s-len-%d-%s-%s-on-repeated-query" % (kind, length, shape, status.split(":")[0]), "a later query on the same parser does not return", dict(wit, rid="%08x" % rid, status=status))
+                break
+            flat = []
+            flatten(res, flat)
+            missing = [x for x in concrete if x not in flat]
+            if missing:
+                ctx.violation("cycle-len-%d-%s-value-missing-on-repeated-query" % (length, shape), "after earlier queries on the same parser a concrete value reachable from the id is missing",
+                              dict(wit, rid="%08x" % rid, missing=missing, query_order=["%08x" % r for r in order]))
+                break
     ctx.sig(kind, length, shape, nconfigs, extra)
     return m, start, data
 
